@@ -24,6 +24,13 @@ pub enum Target {
     RawByte,
     /// make a chain cyclic: tail -> head (role as in FatCell 1..=4; 9 = mini chain)
     Cycle(u8),
+    /// composite: the file is extended beyond what its FAT sectors cover and a cell that
+    /// names a FAT or DIFAT sector is pointed into the uncovered tail (a sector that exists
+    /// in the file but has no FAT cell). kind: 0 first unused DIFAT cell, 1 a used DIFAT
+    /// cell, 2 header's first DIFAT sector (count 1; the tail sector is made to look like an
+    /// empty DIFAT sector), 3 next-pointer of the last DIFAT sector, 4 first directory
+    /// sector, 5 first MiniFAT sector, 6 a stream's start sector
+    UncoveredRef(u8),
 }
 
 #[derive(Clone, Copy, Debug, PartialEq, Eq, Serialize, Deserialize)]
@@ -375,6 +382,79 @@ pub fn apply(img: &mut Vec<u8>, p: &Parsed, c: &Corr) -> Option<String> {
             let len = img.len();
             img.resize(len + extra, fill);
             Some(format!("extend by {} x {:#x}", extra, fill))
+        }
+        Target::UncoveredRef(kind) => {
+            let sl = p.sector_len.max(512);
+            // sectors [covered, covered + extra) exist in the file and have no FAT cell
+            let covered = p.fat.len().max(p.nsectors);
+            let extra = 1 + (c.raw as usize % 3);
+            let want_len = (covered + extra + 1) * sl;
+            if img.len() >= want_len || want_len > 3_000_000 {
+                return None;
+            }
+            let fill = [0u8, 0xff, 0xfe, 0x41][c.sel as usize % 4];
+            img.resize(want_len, fill);
+            let target = (covered + (c.val as usize % extra)) as u32;
+            let per = sl / 4;
+            let what = match kind % 7 {
+                0 | 1 => {
+                    let mut offs: Vec<usize> = (0..109).map(|i| 76 + 4 * i).collect();
+                    for &s in p.difat_sectors.iter() {
+                        for i in 0..per - 1 {
+                            offs.push(p.sector_off(s) + 4 * i);
+                        }
+                    }
+                    let used = p.difat.len().min(offs.len() - 1);
+                    let idx = if kind % 7 == 0 { used } else { pick(c.sel, used.max(1)) };
+                    put(img, offs[idx], &target.to_le_bytes());
+                    format!("DIFAT cell {}", idx)
+                }
+                2 => {
+                    if !p.difat_sectors.is_empty() {
+                        return None;
+                    }
+                    // the tail sector as an empty DIFAT sector: all FREE, next = ENDOFCHAIN
+                    let off = p.sector_off(target);
+                    for i in 0..per - 1 {
+                        put(img, off + 4 * i, &FREESECT.to_le_bytes());
+                    }
+                    put(img, off + 4 * (per - 1), &ENDOFCHAIN.to_le_bytes());
+                    put(img, 68, &target.to_le_bytes());
+                    put(img, 72, &1u32.to_le_bytes());
+                    "header first DIFAT sector".to_string()
+                }
+                3 => {
+                    let last = *p.difat_sectors.last()?;
+                    let off = p.sector_off(target);
+                    for i in 0..per - 1 {
+                        put(img, off + 4 * i, &FREESECT.to_le_bytes());
+                    }
+                    put(img, off + 4 * (per - 1), &ENDOFCHAIN.to_le_bytes());
+                    put(img, p.sector_off(last) + 4 * (per - 1), &target.to_le_bytes());
+                    let n = get32(img, 72).wrapping_add(1);
+                    put(img, 72, &n.to_le_bytes());
+                    "DIFAT chain link".to_string()
+                }
+                4 => {
+                    put(img, 48, &target.to_le_bytes());
+                    "first directory sector".to_string()
+                }
+                5 => {
+                    put(img, 60, &target.to_le_bytes());
+                    "first MiniFAT sector".to_string()
+                }
+                _ => {
+                    let streams: Vec<usize> = p.entries.iter().enumerate().filter(|(_, e)| e.typ == 2 || e.typ == 5).map(|(i, _)| i).collect();
+                    if streams.is_empty() {
+                        return None;
+                    }
+                    let i = streams[pick(c.sel, streams.len())];
+                    let off = *p.entry_offsets.get(i)?;
+                    put(img, off + 116, &target.to_le_bytes());
+                    format!("start sector of entry {}", i)
+                }
+            };
+            Some(format!("file extended to {} sectors ({} covered), {} = uncovered sector {}", covered + extra, covered, what, target))
         }
         Target::SwapSectors => {
             let sl = p.sector_len.max(512);
